@@ -39,6 +39,12 @@ def fake_get(url, *a, **k):
         return Resp({"tag_name": "v99.0.dev1"})
     if b == "garbage":
         return Resp({"tag_name": "release-2026 nightly"})
+    if b == "garbage_slow":
+        time.sleep(0.4)
+        return Resp({"tag_name": "nightly"})
+    if b == "notag_slow":
+        time.sleep(0.4)
+        return Resp({"name": "no tag here"})
     if b == "notag":
         return Resp({})
     if b == "list":
